@@ -379,7 +379,7 @@ func faultVolume(res *hx.Result) {
 	if hx.Thorough() {
 		victims = 1100
 	}
-	hx.Reset("fault-volume", "relay-fault-volume:post-reset")
+	hx.Reset("fault-volume", "relay-fault-volume:post-reset+post-cut")
 	e := &relayEnv{md: hx.StartMetadata(), backend: newEchoBackend()}
 	e.backend.silent = true
 	var err error
@@ -425,7 +425,9 @@ func faultVolume(res *hx.Result) {
 			wg.Add(1)
 			go func(n int) {
 				defer wg.Done()
-				relayClientOpt(e.proxyAddr(), fmt.Sprintf("/t/xvictim%05d/b100/l0/q0/m1/vpost-reset", n), 400*time.Millisecond, false)
+				// (alternately: the agent's upload is reset before it reaches the proxy / reaches the proxy cut inside its head)
+				kind := []string{"post-reset", "post-cut"}[n%2]
+				relayClientOpt(e.proxyAddr(), fmt.Sprintf("/t/xvictim%05d/b100/l0/q0/m1/v%s", n, kind), 400*time.Millisecond, false)
 			}(g*10 + i)
 		}
 		wg.Wait()
@@ -437,12 +439,26 @@ func faultVolume(res *hx.Result) {
 		healthy(fmt.Sprintf("/t/xafter%04d/b50/l0/q0/m1", i))
 		healthyN++
 	}
+	// ... and two bursts of healthy requests at the same time (what the failures left behind may only show when
+	// several responses are in flight together)
+	for b := 0; b < 2; b++ {
+		var wg sync.WaitGroup
+		for i := 0; i < 32; i++ {
+			wg.Add(1)
+			healthyN++
+			go func(i int) {
+				defer wg.Done()
+				healthy(fmt.Sprintf("/t/xburst%d%04d/b%d/l%d/q0/m%d", b, i, []int{50, 5000, 70000}[i%3], i%7, i%3))
+			}(i)
+		}
+		wg.Wait()
+	}
 	aEx, _ := e.agent.Exited()
 	pEx, _ := e.proxy.Exited()
 	ex, _ := example.Load().(string)
 	hx.Emit("FaultVolume", "victims", victims, "healthy", healthyN, "ok", ok, "wrong", wrong, "unanswered", unanswered, "other", other,
 		"agent_alive", !aEx, "proxy_alive", !pEx, "example", ex)
-	res.Case("fault-volume:post-reset", map[string]interface{}{"failed_exchanges": victims, "healthy_requests": healthyN, "healthy_ok": ok})
+	res.Case("fault-volume:post-reset+post-cut", map[string]interface{}{"failed_exchanges": victims, "healthy_requests": healthyN, "healthy_ok": ok})
 }
 
 // MsgShapes are the JSON shapes a shim data call may carry as "msg": the shapes the shim accepts
